@@ -106,6 +106,11 @@ func c01Classes(m *openfgav1.AuthorizationModel) (cls []string, nontrivial bool)
 
 func TestC01(t *testing.T) {
 	rec := ev.New("C01", c01Rule)
+	defer func() {
+		if !rec.Flush() {
+			t.Fail()
+		}
+	}()
 	rec.Assume("acceptance by TransformDSLToProto defines the domain; documents with a '#' at or after the first condition line are excluded from the mutant domain (counted)")
 	rec.Require("origin:rendered", 0.3)
 	rec.Require("domain:mutant-accepted", 0.02)
@@ -163,9 +168,6 @@ func TestC01(t *testing.T) {
 			rt.Fatalf("%s\n--- input:\n%s", msg, in.DSL)
 		}
 	})
-	if !rec.Flush() {
-		t.Fail()
-	}
 }
 
 func TestReplayC01(t *testing.T) {
